@@ -19,24 +19,24 @@ type readEvt struct {
 }
 
 type wsEnv struct {
-	w          *WebsocketConnection
-	readCh     chan readEvt // frames / errors arriving from the peer (buffered, never closed)
-	closedCh   chan struct{} // closed by conn.Close()
-	connClosed bool         // conn.Close() was called
-	closeCalls int
-	frames     [][]byte // binary frames handed to conn.WriteMessage, in order
-	ctlFrames  int      // close / ping frames
-	writeN     int      // number of WriteMessage calls so far
-	failWrite  int      // the k-th WriteMessage fails (0 = never)
-	failCtl    bool     // every control-frame (close / ping) write fails: the transport is broken for writing when the local close starts
-	failedCtl  int      // control-frame writes that failed
-	failedData int      // data-frame writes that failed by injection
-	reports    int      // ReportConnectionError calls
-	delivered  int      // HandleIncomingWebsocketMessage calls
+	w                    *WebsocketConnection
+	readCh               chan readEvt  // frames / errors arriving from the peer (buffered, never closed)
+	closedCh             chan struct{} // closed by conn.Close()
+	connClosed           bool          // conn.Close() was called
+	closeCalls           int
+	frames               [][]byte // binary frames handed to conn.WriteMessage, in order
+	ctlFrames            int      // close / ping frames
+	writeN               int      // number of WriteMessage calls so far
+	failWrite            int      // the k-th WriteMessage fails (0 = never)
+	failCtl              bool     // every control-frame (close / ping) write fails: the transport is broken for writing when the local close starts
+	failedCtl            int      // control-frame writes that failed
+	failedData           int      // data-frame writes that failed by injection
+	reports              int      // ReportConnectionError calls
+	delivered            int      // HandleIncomingWebsocketMessage calls
 	deliveredAfterClosed int
-	lateReads  int // frames returned by ReadMessage while the connection was already marked closed
-	lastLate   bool
-	loopBack   bool // ReportConnectionError closes the data connection (as ShipConnection does)
+	lateReads            int // frames returned by ReadMessage while the connection was already marked closed
+	lastLate             bool
+	loopBack             bool // ReportConnectionError closes the data connection (as ShipConnection does)
 }
 
 var env *wsEnv
